@@ -351,7 +351,8 @@ class case_set_outputs:
     may_raise = ["ValueError", "hugr.exceptions.NoSiblingAncestor"]
 
     def modifies(self, outputs):
-        return [self.hugr._nodes, self.hugr._links.fwd, self.hugr._links.bck, "hugr.ops.Conditional._outputs", "hugr.build.base.ParentBuilder.parent_node"]
+        # (the conditional's graph is this case's graph, but nothing here says so: the node tables are named by field)
+        return ["hugr.hugr.base.Hugr._nodes", self.hugr._links.fwd, self.hugr._links.bck, "hugr.ops.Conditional._outputs", "hugr.build.base.ParentBuilder.parent_node"]
 
     def raises(self, outputs):
         # the conditional this case belongs to has an established row (an empty one counts) and this case's row differs
